@@ -90,6 +90,36 @@ def render() -> str:
              "From PG Require Import Lib.Strs.", ""]
     for k, s in names.items():
         lines.append(f"Definition {k} : str := {cstr(s)}.  (* {s} *)")
+    # command line entry: defaults of --force / --no-postprocess and the argument mapping
+    cli = _parse("cli.py")
+    main = next((n for n in cli.body if isinstance(n, ast.FunctionDef) and n.name == "main"), None)
+    if main is None:
+        raise TranslatorError("cli.py: main() not found")
+    names_ = [a.arg for a in main.args.args]
+    defaults = dict(zip(names_[len(names_) - len(main.args.defaults):], main.args.defaults))
+    cli_defaults = {}
+    for opt in ("force", "no_postprocess"):
+        d = defaults.get(opt)
+        if not (isinstance(d, ast.Call) and ast.unparse(d.func) == "typer.Option" and d.args
+                and isinstance(d.args[0], ast.Constant) and isinstance(d.args[0].value, bool)):
+            raise TranslatorError(f"cli.py: default of `{opt}` is not typer.Option(<bool literal>, ...)")
+        cli_defaults[opt] = d.args[0].value
+    d = defaults.get("core_package")
+    if not (isinstance(d, ast.Call) and d.args and isinstance(d.args[0], ast.Constant) and d.args[0].value is None):
+        raise TranslatorError("cli.py: default of `core_package` is not typer.Option(None, ...)")
+    gcall = next((n for n in ast.walk(main) if isinstance(n, ast.Call) and isinstance(n.func, ast.Attribute)
+                  and n.func.attr == "generate"), None)
+    kw = {k.arg: ast.unparse(k.value) for k in gcall.keywords} if gcall is not None else {}
+    for k in ("force", "no_postprocess", "core_package", "output_package", "project_root"):
+        if kw.get(k) != k:
+            raise TranslatorError(f"cli.py: generate(...) is not called with {k}={k}")
+    src = ast.unparse(main)
+    if "core_package = output_package + '.core'" not in src:
+        raise TranslatorError("cli.py: `core_package = output_package + \".core\"` for an omitted --core-package not found")
+    lines.append("")
+    lines.append("(* cli.py: typer.Option defaults *)")
+    lines.append(f"Definition cli_force_default : bool := {str(cli_defaults['force']).lower()}.")
+    lines.append(f"Definition cli_no_postprocess_default : bool := {str(cli_defaults['no_postprocess']).lower()}.")
     lines.append("")
     lines.append("(* CoreEmitter.RUNTIME_FILES destinations, relative to the core directory *)")
     lines.append("Definition runtime_files : list (list str) := [" +
